@@ -91,7 +91,31 @@ fn noise_next() -> u64 {
     z ^ (z >> 31)
 }
 
+static REPEAT_NOISE: std::sync::atomic::AtomicBool = std::sync::atomic::AtomicBool::new(false);
+static LAST_NOISE: std::sync::Mutex<Option<Vec<u8>>> = std::sync::Mutex::new(None);
+
+/// The next report carries the same values in the unused fields as the previous one (chronyd
+/// reporting the bit-identical state twice).
+pub fn repeat_noise_once() {
+    REPEAT_NOISE.store(true, std::sync::atomic::Ordering::SeqCst);
+}
+
 fn add_noise(b: &mut [u8]) {
+    if REPEAT_NOISE.swap(false, std::sync::atomic::Ordering::SeqCst) {
+        if let Some(prev) = LAST_NOISE.lock().unwrap().as_ref() {
+            b[32..54].copy_from_slice(&prev[0..22]);
+            b[72..92].copy_from_slice(&prev[22..42]);
+            return;
+        }
+    }
+    add_noise_fresh(b);
+    let mut keep = Vec::with_capacity(42);
+    keep.extend_from_slice(&b[32..54]);
+    keep.extend_from_slice(&b[72..92]);
+    *LAST_NOISE.lock().unwrap() = Some(keep);
+}
+
+fn add_noise_fresh(b: &mut [u8]) {
     let n = noise_next();
     let family = (n & 3) as u16; // 0 unspecified, 1 IPv4, 2 IPv6, 3 identifier
     NOISE_FAMILIES[family as usize].fetch_add(1, std::sync::atomic::Ordering::Relaxed);
